@@ -58,14 +58,15 @@ Joins(js, i) == IF i > Len(js) THEN ""
                      \o Joins(js, i + 1)
 Pag(b) == (IF b.lim >= 0 THEN " LIMIT " \o ToString(b.lim) ELSE IF b.off >= 0 THEN " LIMIT -1" ELSE "")
           \o (IF b.off >= 0 THEN " OFFSET " \o ToString(b.off) ELSE "")
-SelectCore(b) ==
+\* forceWhere: SQLite's upsert grammar needs a WHERE clause (WHERE true) in INSERT .. SELECT .. ON CONFLICT
+SelectCoreW(b, forceWhere) ==
     "SELECT " \o (IF b.distinct THEN "DISTINCT " ELSE "") \o Join([i \in DOMAIN b.sel |-> Item(b.sel[i])], ", ")
     \o (IF b.from = <<>> THEN "" ELSE " FROM " \o Join([i \in DOMAIN b.from |-> Src(b.from[i])], ", "))
     \o Joins(b.joins, 1)
-    \o (IF b.whr = <<>> THEN "" ELSE " WHERE " \o AndAll(b.whr))
+    \o (IF b.whr = <<>> THEN (IF forceWhere THEN " WHERE true" ELSE "") ELSE " WHERE " \o AndAll(b.whr))
     \o (IF b.grp = <<>> THEN "" ELSE " GROUP BY " \o Join(RFSeq(b.grp), ", "))
     \o (IF b.hav = <<>> THEN "" ELSE " HAVING " \o AndAll(b.hav))
-SelectFull(b) == SelectCore(b)
+SelectFull(b) == SelectCoreW(b, b.ins # "" /\ ~b.selinto /\ b.vals = <<>> /\ b.oc)
     \o (IF b.ord = <<>> THEN "" ELSE " ORDER BY " \o Join([i \in DOMAIN b.ord |-> OrdItem(b.ord[i])], ", "))
     \o Pag(b)
 RECURSIVE Rows(_, _)
@@ -123,6 +124,8 @@ Suspects(b) ==
        \cup (IF b.del /\ (b.joins # <<>> \/ Len(b.from) > 1) THEN {"delete-multi-source"} ELSE {})
        \cup (IF own # "" /\ SrcTab(own).alias # "" THEN {"own-table-aliased"} ELSE {})
        \cup (IF \E i \in DOMAIN ts : Alias(ts[i]) # "" /\ i > Len(b.sel) THEN {"aliased-operand-term"} ELSE {})
-       \cup (IF b.oc THEN {"upsert"} ELSE {})
-       \cup (IF b.ins # "" /\ b.vals = <<>> THEN {"insert-select"} ELSE {})
+       \cup (IF b.oc /\ b.ins # "" /\ b.vals = <<>> /\ b.whr = <<>> THEN {"upsert-select-without-where" \o (IF b.grp # <<>> THEN "+groupby" ELSE "") \o (IF b.hav # <<>> THEN "+having" ELSE "")
+                                                                                              \o (IF b.ord # <<>> THEN "+orderby" ELSE "") \o (IF b.lim >= 0 THEN "+limit" ELSE "")}
+             ELSE IF b.oc THEN {"upsert"} ELSE {})
+       \cup (IF b.ins # "" /\ b.vals = <<>> /\ ~(b.oc /\ b.whr = <<>>) THEN {"insert-select"} ELSE {})
 =============================================================================
